@@ -14,7 +14,68 @@ import (
 	"verifharness/ref"
 )
 
-func init() { monitors["C14"] = monC14 }
+func init() {
+	monitors["C14"] = monC14
+	// the very first extractions of the process: twelve goroutines released together
+	preludes["C14"] = func(c *child.Ctx) {
+		r := ref.NewRand(c.Seed*977 + uint64(c.Batch)*31 + 14)
+		type job struct {
+			buf        []byte
+			pos, width uint
+			signed     bool
+		}
+		var jobs [12][]job
+		for g := range jobs {
+			for i := 0; i < 200; i++ {
+				blen := r.Range(1, 20)
+				buf := r.Bytes(blen)
+				for j := range buf {
+					buf[j] |= 0x11 // no zero results by accident
+				}
+				maxw := blen * 8
+				if maxw > 64 {
+					maxw = 64
+				}
+				width := uint(r.Range(1, maxw))
+				jobs[g] = append(jobs[g], job{buf, uint(r.Range(0, blen*8-int(width))), width, width >= 2 && i%2 == 0})
+			}
+		}
+		start := make(chan struct{})
+		var wg sync.WaitGroup
+		var bad atomic.Value
+		for g := range jobs {
+			wg.Add(1)
+			go func(g int) {
+				defer wg.Done()
+				defer func() {
+					if rr := recover(); rr != nil {
+						bad.Store([2]string{fmt.Sprintf("one of the first extractions of the process panicked: %v", rr), "{}"})
+					}
+				}()
+				<-start
+				for _, j := range jobs[g] {
+					var want, got *big.Int
+					if j.signed {
+						want, got = ref.BitsBigSigned(j.buf, j.pos, j.width), big.NewInt(utils.GetBitsAsInt64(j.buf, j.pos, j.width))
+					} else {
+						want, got = ref.BitsBig(j.buf, j.pos, j.width), new(big.Int).SetUint64(utils.GetBitsAsUint64(j.buf, j.pos, j.width))
+					}
+					if got.Cmp(want) != 0 {
+						cj, _ := json.Marshal(bitsCase{Buf: hexs(j.buf), Pos: j.pos, Width: j.width, Signed: j.signed})
+						bad.Store([2]string{"among the very first extractions of a process, made by twelve goroutines at the same time: extraction of " + mk2(j.pos, j.width, j.signed) + " returned " + got.String() + ", the addressed bits are " + want.String(), string(cj)})
+						return
+					}
+				}
+			}(g)
+		}
+		close(start)
+		wg.Wait()
+		if v := bad.Load(); v != nil {
+			c.Violate("wrong-value", v.([2]string)[0], []byte(v.([2]string)[1]))
+		}
+		c.Count("processes_whose_first_extractions_were_side_by_side", 1)
+	}
+}
 
 type bitsCase struct {
 	Buf    string `json:"buf"`
@@ -141,6 +202,32 @@ func checkBits(c *child.Ctx, buf []byte, pos, width uint, signed bool) {
 	if got.Cmp(want) != 0 {
 		c.Violate("wrong-value", "extraction of "+mk2(pos, width, signed)+" returned "+got.String()+", the addressed bits are "+want.String(), mk())
 		return
+	}
+	// the same bytes as a sub-slice of a larger array: what lies behind the slice (its
+	// spare capacity - the next message in a read buffer) is left alone
+	{
+		big2 := make([]byte, len(buf)+16)
+		copy(big2, buf)
+		for i := len(buf); i < len(big2); i++ {
+			big2[i] = 0xC3
+		}
+		sub := big2[:len(buf)]
+		var g3 *big.Int
+		if signed {
+			g3 = big.NewInt(utils.GetBitsAsInt64(sub, pos, width))
+		} else {
+			g3 = new(big.Int).SetUint64(utils.GetBitsAsUint64(sub, pos, width))
+		}
+		if g3.Cmp(want) != 0 {
+			c.Violate("wrong-value", "extraction of "+mk2(pos, width, signed)+" from a sub-slice of a larger array returned "+g3.String()+", the addressed bits are "+want.String(), mk())
+			return
+		}
+		for i := len(buf); i < len(big2); i++ {
+			if big2[i] != 0xC3 {
+				c.Violate("outside-bits-influence", fmt.Sprintf("extraction of %s wrote to byte %d behind the end of the slice it was given (its spare capacity)", mk2(pos, width, signed), i-len(buf)), mk())
+				return
+			}
+		}
 	}
 	// complement everything outside the field
 	cp := make([]byte, len(buf))
